@@ -203,7 +203,19 @@ def n4_quotient(ctx) -> None:
         ctx.ok("N4", "quotient A: the counted factor is limited to sizes below n (its larger terms are what is being computed)")
     else:
         ctx.violation("N4", c0, f"the maximum sizes in Quotient._a must be self._max_sizes with entry self.idx replaced by {n} - 1; found `{norm(mx)[:90]}`")
-    start = PT.find_all(f, f"_M_res = Counter({par}({n} + self._parent_shift))") or PT.find_all(f, f"_M_res = Counter({par}(self._parent_shift + {n}))")
+    start = []
+    for st0 in walk_local(f):
+        tg0, v0 = PT.assign_value(st0)
+        if not isinstance(tg0, ast.Name) or v0 is None:
+            continue
+        inner = v0
+        copies = 0
+        while isinstance(inner, ast.Call) and norm(inner.func) in ("Counter", "dict", "copy", "copy.copy") and len(inner.args) == 1:
+            inner = inner.args[0]
+            copies += 1
+        if copies and isinstance(inner, ast.Call) and norm(inner.func) == par and len(inner.args) == 1 and affine(inner.args[0]) == {n: 1, "self._parent_shift": 1} \
+                and norm(v0.func) == "Counter":
+            start.append((st0, {"_M_res": tg0.id}))
     if start:
         res = start[0][1]["_M_res"]
         ctx.ok("N4", "quotient A: starts from a copy of the product's terms at n + parent_shift")
